@@ -456,6 +456,7 @@ func (w *World) genHistory(p HistParams) *History {
 		w.scenarioUnlockEdge(h, deliver)
 	case "batches":
 		w.scenarioBatches(h, deliver, deliverBatch)
+		w.scenarioSidePow(h, deliver)
 	}
 	if len(h.Ops) > 0 && h.Ops[len(h.Ops)-1].Dump == nil {
 		h.Ops[len(h.Ops)-1].Dump = w.dump(h.NUT)
@@ -1042,6 +1043,33 @@ func (w *World) scenarioBatches(h *History, deliver func(*TNode) *Op, deliverBat
 		deliverBatch(batch)
 	}
 	h.Stats["scenario-batches"]++
+}
+
+// scenarioSidePow: quickly spaced blocks (the difficulty climbs through every residue modulo 3); on every tip a block
+// whose side block carries just less than two thirds of the block's work (must be refused) and one whose side block
+// carries just that much (accepted, becomes the tip).
+func (w *World) scenarioSidePow(h *History, deliver func(*TNode) *Op) {
+	for step := 0; step < 9; step++ {
+		parent := w.nodeOfTop(h.NUT)
+		if parent == nil || parent.Snap == nil || parent.Parent == nil || parent.Parent.Snap == nil {
+			return
+		}
+		sib := w.build(parent.Parent, BlockSpec{TsDelta: 300, Recipient: w.wallets[step%len(w.wallets)].Addr})
+		w.admit(sib)
+		deliver(sib)
+		for _, c := range []string{"side-pow-below", "side-pow-at"} {
+			x := w.build(parent, BlockSpec{TsDelta: 200, Recipient: w.wallets[(step+1)%len(w.wallets)].Addr, Sides: []*TNode{sib}, Corrupt: c})
+			w.admit(x)
+			deliver(x)
+			h.Stats[fmt.Sprintf("%s:diff%%3=%d", c, x.Block.Difficulty.Lo%3)]++
+		}
+		if w.nodeOfTop(h.NUT) == parent {
+			y := w.build(parent, BlockSpec{TsDelta: 200, Recipient: w.wallets[(step+2)%len(w.wallets)].Addr})
+			w.admit(y)
+			deliver(y)
+		}
+	}
+	h.Stats["scenario-sidepow"]++
 }
 
 // scenarioCorruptSweep: every single-rule corruption of an otherwise valid block, once each, on a live chain state
